@@ -151,11 +151,13 @@ def gibbs_cases(draw):
             op["m"] = draw(st.integers(1, 4)) if k == "step" else draw(st.sampled_from([0, 5, 30, 101]))
         ops.append(op)
     cfg["ops"] = ops
+    cfg["reload"] = draw(st.sampled_from([False, False, True]))
     return cfg
 
 
 def body_gibbs(case, ctx):
-    cfg = case
+    cfg = dict(case)
+    cfg["ops"] = list(case["ops"])
     cls = cfg["cls"]
     ch, tgt, info = S.build(cfg, record=True)
     d = cfg["d"]
@@ -226,6 +228,28 @@ def body_gibbs(case, ctx):
                         lo, hi = region(k)
                         if np.isfinite(hi - lo) and ch.params[k].sigma >= 3 * (hi - lo):
                             wide = True
+    if cfg.get("reload"):
+        import os, shutil, tempfile
+        from props.c09_save_load import load as load_sampler
+
+        tmp = tempfile.mkdtemp(prefix="c04-", dir=os.environ.get("TMPDIR", "/tmp"))
+        try:
+            path = os.path.join(tmp, "chain.npz")
+            with warnings.catch_warnings():
+                warnings.simplefilter("ignore")
+                ch.save(path)
+                tgt2 = Target(cfg["target"], record=True)
+                ch2 = load_sampler(cfg, path, tgt2)
+                n0 = S.n_stored(ch2)
+                with np.errstate(all="ignore"):
+                    ch2.advance(12)
+            op = {"op": "advance-after-save/load", "i": 0}
+            cfg["ops"].append(op)
+            check_points([t for t, _ in tgt2.trace], "posterior evaluation after save/load", op)
+            check_points(np.asarray(ch2.get_sample(burn=n0)), "stored sample after save/load", op)
+            ctx.event("reloaded")
+        finally:
+            shutil.rmtree(tmp, ignore_errors=True)
     ctx.nontrivial(wide or max(changes) >= 2)
     ctx.event("cls=" + cls)
     ctx.event("changes>=2" if max(changes) >= 2 else "changes<2")
@@ -247,6 +271,7 @@ def box_cases(draw):
     if cfg["cls"] == "ensemble":
         cfg["ens"]["alpha"] = draw(st.sampled_from([2.0, 5.0, 20.0, 100.0]))
     cfg["m"] = draw(st.sampled_from([1, 3, 10, 30]))
+    cfg["reload"] = draw(st.sampled_from([False, False, True]))
     return cfg
 
 
@@ -297,6 +322,32 @@ def body_box(case, ctx):
         check(grad.points, "gradient evaluation")
     if cls != "ensemble" or ch.sample is not None:
         check(np.asarray(ch.get_sample(burn=0)), "stored sample")
+    if cfg.get("reload"):
+        # bounds given at construction stay in force for the sampler that comes back from save / load
+        import os, shutil, tempfile
+        from props.c09_save_load import load as load_sampler
+
+        tmp = tempfile.mkdtemp(prefix="c04-", dir=os.environ.get("TMPDIR", "/tmp"))
+        try:
+            path = os.path.join(tmp, "chain.npz")
+            with warnings.catch_warnings():
+                warnings.simplefilter("ignore")
+                ch.save(path)
+                tgt2 = Target(cfg["target"], record=True)
+                ch2 = load_sampler(cfg, path, tgt2)
+                with np.errstate(all="ignore"):
+                    try:
+                        ch2.advance(cfg["m"])
+                    except ValueError as e:
+                        if not (cls == "hmc" and "maximum allowed attempts" in str(e)):
+                            raise
+            check([t for t, _ in tgt2.trace], "posterior evaluation after save/load")
+            if cls == "hmc" and cfg["hmc"]["grad"]:
+                check(ch2.grad.points, "gradient evaluation after save/load")
+            check(np.asarray(ch2.get_sample(burn=0)), "stored sample after save/load")
+            ctx.event("reloaded")
+        finally:
+            shutil.rmtree(tmp, ignore_errors=True)
     scale = (S.widths_of(cfg) if cls == "pca" else (hi - lo) * 3)
     ctx.nontrivial(bool(np.any(scale >= 3 * (hi - lo))) or cfg["on_wall"] is not None)
     ctx.event("cls=" + cls)
